@@ -96,19 +96,20 @@ type c15Prop struct {
 }
 
 type c15Run struct {
-	spec       c15Spec
-	c          *chain.Chain
-	rng        *rand.Rand
-	res        *core.CaseResult
-	verb       bool
-	props      map[uint64]*c15Prop
-	users      []chain.Key
-	deleg      chain.Key // a delegator with a known stake at validator 0
-	delegStake sdkmath.Int
-	custom     map[string]*fxgovtypes.CustomParams // model of per-type params
-	outcomes   map[string]int
-	tok        *fix.WToken
-	expOK      bool // governance has set the expedited minimum deposit in FX: expedited proposals can be made
+	spec        c15Spec
+	c           *chain.Chain
+	rng         *rand.Rand
+	res         *core.CaseResult
+	verb        bool
+	props       map[uint64]*c15Prop
+	users       []chain.Key
+	deleg       chain.Key // a delegator with a known stake at validator 0
+	delegStake  sdkmath.Int
+	custom      map[string]*fxgovtypes.CustomParams // model of per-type params
+	outcomes    map[string]int
+	tok         *fix.WToken
+	exactVoters map[string][]chain.Key // per message type: the validators whose share of the bonded stake is the type's quorum
+	expOK       bool                   // governance has set the expedited minimum deposit in FX: expedited proposals can be made
 }
 
 func (r *c15Run) logf(f string, a ...interface{}) {
@@ -408,6 +409,26 @@ func (r *c15Run) vote() {
 		return
 	}
 	p := ps[r.rng.IntN(len(ps))]
+	if p.quorum.Equal(sdkmath.LegacyOneDec()) && len(p.votes) == 0 {
+		// everybody has to vote, and everybody does
+		for _, v := range []chain.Key{r.c.Vals[0].Operator, r.c.Vals[1].Operator, r.c.Vals[2].Operator, r.deleg} {
+			if res := fix.GovVote(r.c, v, p.id, govv1.OptionYes); res.OK() {
+				p.votes[v.Bech32()] = govv1.OptionYes
+			}
+		}
+		r.res.Count("turnout_equal_to_quorum_attempts", 1)
+		return
+	}
+	if ev, ok := r.exactVoters[p.url]; ok && len(p.votes) == 0 {
+		// exactly the validators whose combined share equals the quorum of this type vote yes
+		for _, v := range ev {
+			if res := fix.GovVote(r.c, v, p.id, govv1.OptionYes); res.OK() {
+				p.votes[v.Bech32()] = govv1.OptionYes
+			}
+		}
+		r.res.Count("turnout_equal_to_quorum_attempts", 1)
+		return
+	}
 	voters := []chain.Key{r.c.Vals[0].Operator, r.c.Vals[1].Operator, r.c.Vals[2].Operator, r.deleg}
 	v := voters[r.rng.IntN(len(voters))]
 	opts := []govv1.VoteOption{govv1.OptionYes, govv1.OptionYes, govv1.OptionYes, govv1.OptionNo, govv1.OptionAbstain, govv1.OptionNoWithVeto}
@@ -447,6 +468,9 @@ func (r *c15Run) expectedTally(p *c15Prop) (passes bool, burn bool, participatio
 		add(o, pw)
 	}
 	participation = sdkmath.LegacyNewDecFromInt(total).Quo(sdkmath.LegacyNewDecFromInt(totalBonded))
+	if participation.Equal(p.quorum) && !p.quorum.IsZero() {
+		r.res.Count("tallies_with_turnout_equal_to_quorum", 1)
+	}
 	gp := r.govParams()
 	if participation.LT(p.quorum) {
 		return false, gp.BurnVoteQuorum, participation
@@ -645,11 +669,35 @@ func (r *c15Run) customParams() {
 	} else {
 		period := time.Duration(1+r.rng.IntN(20)) * 24 * time.Hour
 		quorum := fmt.Sprintf("0.%02d", 10+r.rng.IntN(60))
-		switch r.rng.IntN(6) {
+		delete(r.exactVoters, url)
+		switch r.rng.IntN(9) % 7 {
 		case 0:
 			quorum = "0" // boundary values the validation accepts: no quorum at all ...
 		case 1:
 			quorum = "1" // ... and everybody has to vote
+		case 2:
+			// ... and exactly the share of the bonded stake that one or two named validators hold, so that
+			// a turnout equal to the quorum can be produced
+			c := r.c
+			total, _ := c.App.StakingKeeper.TotalBondedTokens(c.Ctx)
+			voters := []chain.Key{c.Vals[1].Operator}
+			pw := sdkmath.ZeroInt()
+			if r.rng.IntN(2) == 0 {
+				voters = append(voters, c.Vals[2].Operator)
+			}
+			for i, v := range c.Vals {
+				for _, k := range voters {
+					if k.Bech32() == v.Operator.Bech32() {
+						val, _ := c.App.StakingKeeper.GetValidator(c.Ctx, c.Vals[i].Operator.Val())
+						pw = pw.Add(val.Tokens)
+					}
+				}
+			}
+			quorum = sdkmath.LegacyNewDecFromInt(pw).Quo(sdkmath.LegacyNewDecFromInt(total)).String()
+			if r.exactVoters == nil {
+				r.exactVoters = map[string][]chain.Key{}
+			}
+			r.exactVoters[url] = voters
 		}
 		ratio := "0"
 		if cl == "egf" {
